@@ -72,6 +72,9 @@ def plan(pid, tier, seed):
                                               "unsafe code are runtime facts outside the model (partial)"],
                 "assumptions": ["partial: Lean proves the layout arithmetic the unsafe code relies on; that the code performs exactly "
                                 "those accesses is tied only by the correspondence (alignment/integrity-checking component types, arena invariant on hooked state)"]}
+    if pid == "C18":
+        return {"jobs": world_jobs(["tracker"], tier, seed, 300, 40000), "trusted_base": WORLD_TRUST,
+                "assumptions": ["one tracker per world; entities are not moved between worlds while tracked; T: Clone keeps the value"]}
     if pid == "C19":
         n = 3000 if q else 2_000_000
         jobs = [{"engine": "bits", "name": f"bits-{i}", "args": ["--seed", seed * 31 + i, "--count", n // (1 if q else NSHARD_THOROUGH)]}
